@@ -638,11 +638,12 @@ def burst_case(ctx, case):
     plan = case.get('plan', 'whole')
     world = vnet.World(servers=[srv],
                        plan=list(plan) if isinstance(plan, tuple) else plan)
-    seen = []
+    seen, kept = [], []
     with vnet.installed(world):
         conn, o = servers.make_connection(world, allowed_versions={version})
         conn.register_packet_listener(
-            lambda p: seen.append(p.id), Packet, early=True)
+            lambda p: (seen.append(p.id), kept.append(p)), Packet,
+            early=True)
         try:
             conn.connect()
         except Exception as e:
@@ -671,6 +672,15 @@ def burst_case(ctx, case):
         ctx.fail('burst', 'R1-sequence', case,
                  '%d packets handed over, first difference at %d'
                  % (len(got), k), '%d packets' % n)
+        return
+    # the recovered sequence is the packets the listener was handed: a
+    # caller that queues them and looks later must find the same sequence
+    later = [p.id for p in kept]
+    if later != seen:
+        k = next(j for j, (a, b) in enumerate(zip(later, seen)) if a != b)
+        ctx.fail('burst', 'R1-delivered-packet-changed-later', case,
+                 'packet %d has id %r after the burst' % (k, later[k]),
+                 'id %r as when it was delivered' % (seen[k],))
         return
     if n > 50:
         ctx.nt('burst', repr(case))
